@@ -52,6 +52,23 @@ def famAfter (op : Val) : Bool :=
   | .arr [.str "find_one_and_replace", _, _, _, _, _, after] => boolOf after
   | _ => false
 
+/-- the projection argument of a find_one_and_* -/
+def famProj (op : Val) : Val :=
+  match op with
+  | .arr [.str "find_one_and_update", _, _, p, _, _, _] => p
+  | .arr [.str "find_one_and_replace", _, _, p, _, _, _] => p
+  | .arr [.str "find_one_and_delete", _, p, _] => p
+  | _ => .null
+
+/-- the projection is acceptable in itself: applied to the empty document it does not raise.
+    (What `_find_and_modify` checks before it writes; a projection that fails this test is refused
+    whatever the documents are: a bad field list, an unsupported projection operator, inclusion
+    mixed with exclusion, colliding paths.) -/
+def projAcceptable (proj : Val) : Bool :=
+  match copyOnlyFields (.doc []) proj with
+  | .ok _ => true
+  | .error _ => false
+
 /-- the same operation with `return_document=BEFORE` -/
 def famBefore (op : Val) : Val :=
   match op with
